@@ -22,7 +22,7 @@ import (
 // C05 — acknowledged writes are never lost; one accepted child per parent revision.
 // E1 at database level: each execution builds a fresh database on an in-memory bucket behind vstore, creates
 // doc1 at revision 1, then 2-3 controlled threads each perform one write on the shared document (or a second
-// document, to share the allocator). Choice points are the storage operations; shim mutexes only block.
+// document, to share the allocator, or a revision replicated from another Sync Gateway). Choice points are the storage operations; shim mutexes only block.
 
 type c05Scenario struct {
 	Ops       []string `json:"ops"`       // per thread: put | putx | del | resync | put2 (second document)
@@ -174,11 +174,27 @@ func c05Build(t testing.TB, r *vreport.Report, sc c05Scenario) vsched.Scenario {
 	ctx, coll := v.ctx, v.coll
 	H := v.vb.H
 	H.Enabled = true // logging on from the start (sequence accounting reads the log)
+	hasVV := false
+	for _, op := range sc.Ops {
+		if op == "vvpull" {
+			hasVV = true
+		}
+	}
+	if hasVV {
+		// (the channel oracle of the replicated scenarios needs writes and resync to use one sync function)
+		if _, err := coll.UpdateSyncFun(ctx, `function(doc) { channel(doc.channels); }`); err != nil {
+			t.Fatalf("sync function: %v", err)
+		}
+	}
 	rev1, doc0, err := coll.Put(ctx, "doc1", Body{"v": 0, "channels": []string{"A"}})
 	if err != nil {
 		t.Fatalf("setup put: %v", err)
 	}
 	seq0 := doc0.Sequence
+	var ver0 uint64
+	if doc0.HLV != nil {
+		ver0 = doc0.HLV.Version
+	}
 	acks := make([]c05Ack, len(sc.Ops))
 	threads := make([]func(), len(sc.Ops))
 	for i, op := range sc.Ops {
@@ -208,6 +224,20 @@ func c05Build(t testing.TB, r *vreport.Report, sc c05Scenario) vsched.Scenario {
 			case "resync":
 				a.err = coll.ResyncDocument(ctx, "doc1", nil, true)
 				a.parent = ""
+			case "vvpull":
+				// a revision of doc1 arriving from another Sync Gateway under the version-vector protocol: its vector has seen
+				// revision 1 only and is newer than anything written locally, its history continues revision 1; a local write
+				// that lands first turns it into a conflict, resolved by the default (last write wins, deletes win) resolver
+				newRev := fmt.Sprintf("2-vv%d", i)
+				incoming := &HybridLogicalVector{SourceID: fmt.Sprintf("cmVtb3Rl%d", i), Version: ver0 + 1000000000000 + uint64(i), PreviousVersions: HLVVersions{v.db.EncodedSourceID: ver0}}
+				newDoc := &Document{ID: "doc1", RevID: newRev, HLV: incoming}
+				newDoc.UpdateBody(Body{"v": i + 30, "channels": []string{"A", "V"}})
+				doc, _, _, err := coll.PutExistingCurrentVersion(ctx, PutDocOptions{NewDoc: newDoc, RevTreeHistory: []string{newRev, rev1}, NewDocHLV: incoming, ISGRWrite: true,
+					ConflictResolver: NewConflictResolver(DefaultLWWConflictResolutionType, nil)})
+				a.rev, a.err = newRev, err
+				if doc != nil {
+					a.seq = doc.Sequence
+				}
 			case "put2":
 				rev, doc, err := coll.Put(ctx, "doc2", Body{"v": i + 20, "channels": []string{"B"}})
 				a.rev, a.err = rev, err
@@ -278,13 +308,45 @@ func c05Build(t testing.TB, r *vreport.Report, sc c05Scenario) vsched.Scenario {
 					viol["C05/write/sequence-reused"] = fmt.Sprintf("sequence %d acknowledged to %s and to thread %d %s [%s]", a.seq, prev, i, a.op, name)
 				}
 				seqSeen[a.seq] = fmt.Sprintf("thread %d %s", i, a.op)
-				if a.seq <= seq0 {
+				if a.seq <= seq0 && !(a.op == "vvpull" && a.seq == 0) {
 					viol["C05/write/sequence-not-greater-than-superseded"] = fmt.Sprintf("thread %d %s got sequence %d, the revision it superseded had %d [%s]", i, a.op, a.seq, seq0, name)
 				}
 			}
 			sort.Strings(outcome)
 			r.Distinct("outcomes", name+"|"+strings.Join(outcome, ",")+"|"+doc.GetRevTreeID()[:1])
-			if !sc.Conflicts {
+			if hasVV {
+				// a replicated revision that met a local write was resolved: whatever the resolution, the tree is left with
+				// at most one live leaf when conflicts are not allowed, and the document sits in the channels of its current body
+				live := 0
+				for _, l := range doc.History.GetLeaves() {
+					if !doc.History[l].Deleted {
+						live++
+					}
+				}
+				if !sc.Conflicts && live > 1 {
+					viol["C05/replicated/conflict-left-unresolved"] = fmt.Sprintf("%d live leaves after a replicated revision with a conflict resolver: %v [%s]", live, c05Revs(doc), name)
+				}
+				if !doc.IsDeleted() {
+					body, _ := doc.GetDeepMutableBody()
+					var want []string
+					if cs, ok := body["channels"].([]any); ok {
+						for _, c := range cs {
+							want = append(want, fmt.Sprint(c))
+						}
+					}
+					var have []string
+					for ch, removed := range doc.Channels {
+						if removed == nil {
+							have = append(have, ch)
+						}
+					}
+					sort.Strings(want)
+					sort.Strings(have)
+					if strings.Join(want, ",") != strings.Join(have, ",") {
+						viol["C05/replicated/channels-do-not-match-the-current-body"] = fmt.Sprintf("current revision %s has body channels %v but the document is in channels %v; history %v [%s]", doc.GetRevTreeID(), want, have, c05Revs(doc), name)
+					}
+				}
+			} else if !sc.Conflicts {
 				if children > 1 {
 					viol["C05/noconflicts/two-children-of-one-parent"] = fmt.Sprintf("%d acknowledged writes are children of %s: history %v [%s]", children, rev1, c05Revs(doc), name)
 				}
@@ -394,7 +456,12 @@ func TestVerifC05(t *testing.T) {
 			}
 		}
 	}
-	triples := [][]string{{"put", "resync", "put"}, {"put", "putx", "del"}, {"put", "put", "put"}, {"putx", "resync", "del"}, {"put", "put2", "resync"}, {"putx", "putx", "put"}}
+	for _, b := range []string{"put", "putx", "del", "resync", "vvpull"} {
+		for _, c := range []bool{false, true} {
+			jobs = append(jobs, job{c05Scenario{Ops: []string{"vvpull", b}, Conflicts: c}, 2})
+		}
+	}
+	triples := [][]string{{"vvpull", "put", "resync"}, {"vvpull", "del", "put"}, {"put", "resync", "put"}, {"put", "putx", "del"}, {"put", "put", "put"}, {"putx", "resync", "del"}, {"put", "put2", "resync"}, {"putx", "putx", "put"}}
 	tb := 1
 	if r.Thorough() {
 		tb = 2
